@@ -265,7 +265,9 @@ class BinningConfig(BaseConfig, Immutable):
                 )
             method = BinMethod(method)
             bin_func = RedshiftBinningFactory(cosmology).get_method(method)
-            binning = bin_func(zmin, zmax, num_bins, closed=closed)
+            # use double precision, even if the limits are given as e.g. numpy
+            # float32, otherwise the edges are not reproducible from zmin/zmax
+            binning = bin_func(float(zmin), float(zmax), int(num_bins), closed=closed)
 
         else:  # use provided bin edges
             method = BinMethod.custom
